@@ -1,4 +1,5 @@
 import Gittuf.Props.C10
+import Gittuf.Props.C10b
 #print axioms Gittuf.paths_roundtrip_z
 #print axioms Gittuf.changed_verbatim_z
 #print axioms Gittuf.paths_verbatim_z
@@ -6,3 +7,7 @@ import Gittuf.Props.C10
 #print axioms Gittuf.changed_one_partial
 #print axioms Gittuf.paths_witness
 #print axioms Gittuf.paths_not_verbatim_as_coded
+#print axioms Gittuf.World.verifyPaths_all
+#print axioms Gittuf.World.C10_all_paths
+#print axioms Gittuf.World.C10_entry_checks_all_commits
+#print axioms Gittuf.World.commitsBetween_spec
